@@ -1,0 +1,18 @@
+//go:build verif
+// +build verif
+
+// Machine-checked contracts for this package (checked by /verif/govc).
+// Comment-only: no executable code.
+
+package types
+
+// C06: each transaction requires the signature of exactly the party the protocol assigns
+// (table written from the property statement, not from the code).
+//@ func (MsgCreateProvider).GetSigners   // provider
+//@   ensures len(result) == 1 && result[0] == unbech32(msg.Owner)
+//@ func (MsgUpdateProvider).GetSigners   // provider
+//@   ensures len(result) == 1 && result[0] == unbech32(msg.Owner)
+//@ func (MsgDeleteProvider).GetSigners   // provider
+//@   ensures len(result) == 1 && result[0] == unbech32(msg.Owner)
+
+//@ property C06 := (MsgCreateProvider).GetSigners#*, (MsgUpdateProvider).GetSigners#*, (MsgDeleteProvider).GetSigners#*
